@@ -350,7 +350,7 @@ func (f *frame) havocModsT(h *Heap, mods map[string]bool, all bool, touched map[
 		old := before[k]
 		if old == "" {
 			if h.pending(k) {
-				old = e.fresh("Hv."+k, so)
+				old = e.pendSym(h, k, so)
 			} else {
 				old = e.initial(k)
 			}
@@ -609,7 +609,7 @@ func (f *frame) keepPrivate(h *Heap, before map[string]string, except map[string
 				}
 				if !has {
 					// pending havoc: materialise the new version now so that the kept entry can be stated
-					cur = e.fresh("Hv."+k, e.comps[k])
+					cur = e.pendSym(h, k, e.comps[k])
 					h.m[k] = cur
 					h.dirty[k] = true
 				}
@@ -1119,7 +1119,7 @@ func (f *frame) invoke(in ssa.Instruction, c *ssa.CallCommon, recv Val, args []V
 	r := e.scalar(recv)
 	// devirtualise: the receiver was built by MakeInterface from a type of the verified packages
 	if info, ok := e.ifaces[r]; ok {
-		if m := e.w.prog.LookupMethod(info.Dyn, c.Method.Pkg(), c.Method.Name()); m != nil && e.w.inScope(m) && m.Blocks != nil {
+		if m := e.w.methodOf(info.Dyn, c.Method.Name()); m != nil && e.w.inScope(m) && m.Blocks != nil {
 			target := m
 			recvArg := info.P
 			// promoted/wrapper methods: call the declared method when the receiver shapes agree
